@@ -95,4 +95,55 @@ Section P.
     destruct (go_binop k op a b) as [v| | |] eqn:E; simpl; try reflexivity.
     rewrite coerce_typed by (eapply @go_binop_typed; exact E). reflexivity.
   Qed.
+
+  (* ---- constant operands ---- *)
+  Lemma wf_cases k (c : value) : wf_value F k c ->
+    (exists z, c = VInt k z /\ is_integer k = true /\ in_range (ikd k) z) \/
+    (exists f, c = VFlt k f /\ (is_float k || is_complex k) = true) \/
+    (exists x, c = VStr x /\ k = GString) \/ (exists b, c = VBool b /\ k = GBool).
+  Proof.
+    destruct c; simpl; try tauto.
+    - intros ->. right. right. right. eauto.
+    - intros (-> & H1 & H2). left. eauto.
+    - intros ->. right. right. left. eauto.
+    - intros (-> & H). right. left. eauto.
+  Qed.
+
+  Lemma norm_const_ty k (c c' : value) : wf_value F k c -> norm_const k c = Ok c' -> has_ty F (TK k) c' = true.
+  Proof.
+    intros Hw. unfold Model.norm_const.
+    destruct (wf_cases _ _ Hw) as [(z & -> & Hk & Hr)|[(f & -> & Hk)|[(x & -> & ->)|(b & -> & ->)]]].
+    - destruct k; try discriminate; cbv; intros [= <-]; reflexivity.
+    - destruct k; try discriminate; cbv; intros [= <-]; reflexivity.
+    - cbv. intros [= <-]. reflexivity.
+    - cbv. intros [= <-]. reflexivity.
+  Qed.
+
+  (* for integers, bools and strings the closure sees the constant itself *)
+  Lemma norm_const_id k (c : value) : wf_value F k c -> (is_float k || is_complex k) = false -> norm_const k c = Ok c.
+  Proof.
+    intros Hw Hk. unfold Model.norm_const.
+    destruct (wf_cases _ _ Hw) as [(z & -> & Hi & Hr)|[(f & -> & Hf)|[(x & -> & ->)|(b & -> & ->)]]]; try reflexivity.
+    - assert (E : GoInt.wrap (ikd k) z = z) by (apply wrap_id; exact Hr).
+      destruct k; try discriminate; unfold Sem.accessor, acc_meth, wide, Sem.convert; simpl; try reflexivity;
+        unfold ikd in E; simpl in E; rewrite E; reflexivity.
+    - rewrite Hf in Hk. discriminate.
+  Qed.
+
+  Lemma ceval_cextract (ce : cenv F) k src (c : value) :
+    clookup F ce (ECall0 (EMeth src (acc_meth k))) = None ->
+    clookup F ce (EConv (TK k) (ECall0 (EMeth src (acc_meth k)))) = None ->
+    eval ce [] src [] = Ok (c, []) -> wf_value F k c ->
+    ceval ce (cextract k src) = match norm_const k c with Ok v => Some (CV F v) | _ => None end.
+  Proof.
+    intros H1 H2 Hs Hw. unfold Sem.ceval, cextract, Model.norm_const.
+    assert (Hnr : forall pp ii, c <> VRef pp ii) by (intros pp ii ->; exact Hw).
+    destruct (wide k).
+    - rewrite H1. simpl. unfold bind. rewrite Hs.
+      destruct c; try (exfalso; eapply Hnr; reflexivity); destruct (accessor F fconv (acc_meth k) _); reflexivity.
+    - rewrite H2. simpl. unfold bind. rewrite Hs.
+      destruct c; try (exfalso; eapply Hnr; reflexivity);
+        destruct (accessor F fconv (acc_meth k) _); simpl; try reflexivity;
+        unfold lift; destruct (convert F fconv k _); reflexivity.
+  Qed.
 End P.
